@@ -18,6 +18,8 @@ for tier in ["quick"]:
     sigs = [(a, b) for a, b in re.findall(r"^\s+\[([^\]]+)\] (.+?): ", c.stdout, re.M) if not a.startswith("unrewritten")]
     checks[tier] = {"exit": c.returncode, "detected": c.returncode == 1, "wall_s": round(time.time() - t0, 1),
                     "reported": [f"{a}: {b}" for a, b in sigs][:6]}
+if not checks["quick"]["detected"]:
+    checks["first_pass"] = {"quick_detected": False, "note": "missed by the check as it was when the change arrived"}
 os.makedirs(dst, exist_ok=True)
 for f in os.listdir(src):
     if f.endswith(".log") or f.endswith(".txt"):
